@@ -140,6 +140,12 @@ pub struct Case {
     /// signature must be matched by a closed flag in the store)
     #[serde(default)]
     pub fault_retry: bool,
+    /// API group, simple factory: the operator's policy filter is a carve-out in vlsd's
+    /// `--policy-filter` order: `policy-mutual-*` and `policy-onchain-format-standard` (the tag of the
+    /// raw entry point's rebuilt-transaction comparison) stay errors, every other `policy-*` rule is only
+    /// logged; what the property says about a signed close must still hold
+    #[serde(default)]
+    pub carve_out: bool,
 }
 
 fn delta_strat() -> impl Strategy<Value = Delta> {
@@ -386,9 +392,10 @@ impl Prop for C07 {
             (prop::bool::weighted(0.12), prop::bool::weighted(0.12), prop::bool::weighted(0.04), prop::bool::weighted(0.04), prop::bool::weighted(0.2)),
             (any::<bool>(), kind_strat(), prop::bool::weighted(0.8), delta_strat(), any::<bool>()),
             (prop_oneof![1 => Just(RateSel::MinMinus3), 2 => Just(RateSel::Min), 5 => Just(RateSel::Mid), 2 => Just(RateSel::Max), 1 => Just(RateSel::MaxPlus3), 1 => Just(RateSel::Zero)], any::<bool>(), prop::bool::weighted(0.08), prop::bool::weighted(0.1), prop::bool::weighted(0.12), prop::bool::weighted(0.4), prop_oneof![12 => Just(None), 1 => (0u8..2, 0u8..3).prop_map(Some)], 1u8..13, prop::bool::weighted(0.35), prop_oneof![30 => Just(None), 1 => (0u8..4, 0u8..3).prop_map(Some)]),
-            (prop_oneof![6 => Just(0u8), 1 => Just(1u8), 1 => Just(2u8), 1 => Just(3u8)], prop::bool::weighted(0.15)),
+            (prop_oneof![6 => Just(0u8), 1 => Just(1u8), 1 => Just(2u8), 1 => Just(3u8)], prop::bool::weighted(0.15), prop::bool::weighted(0.25)),
         )
-            .prop_map(|((anchors, outbound, upfront, view_delta, view_delta_neg), (htlc_in_holder, htlc_in_cp, mh, mc, remove_allowlisted), (phase1, holder_script, hseu, prop_delta, prop_delta_neg), (rate, holder_first, extra_output, cp_zero, cp_takes_holder_share, holder_replaced, wire, allow_edit, onchain, startup), (raw_input, fault_retry))| Case {
+            .prop_map(|((anchors, outbound, upfront, view_delta, view_delta_neg), (htlc_in_holder, htlc_in_cp, mh, mc, remove_allowlisted), (phase1, holder_script, hseu, prop_delta, prop_delta_neg), (rate, holder_first, extra_output, cp_zero, cp_takes_holder_share, holder_replaced, wire, allow_edit, onchain, startup), (raw_input, fault_retry, carve_out))| Case {
+                carve_out: carve_out && wire.is_none() && !onchain && startup.is_none(),
                 startup,
                 raw_input: if phase1 { raw_input } else { 0 },
                 fault_retry,
@@ -406,7 +413,23 @@ impl Prop for C07 {
         if let Some((idx_sel, dest_sel)) = case.wire {
             return self.run_wire(case, idx_sel, dest_sel, st, ctx);
         }
-        let mut w = if case.onchain { World::new_onchain(WorldCfg::default_testnet()) } else { World::new(WorldCfg::default_testnet()) };
+        let mut cfg0 = WorldCfg::default_testnet();
+        if case.carve_out && !case.onchain {
+            use lightning_signer::policy::filter::{FilterResult, FilterRule, PolicyFilter};
+            let mut f = PolicyFilter::default();
+            f.merge(PolicyFilter {
+                rules: vec![
+                    FilterRule { tag: "policy-mutual-".to_string(), is_prefix: true, action: FilterResult::Error },
+                    // the raw entry point reports a transaction that is not the rebuilt closing
+                    // transaction under this tag
+                    FilterRule { tag: "policy-onchain-format-standard".to_string(), is_prefix: false, action: FilterResult::Error },
+                    FilterRule { tag: "policy-".to_string(), is_prefix: true, action: FilterResult::Warn },
+                ],
+            });
+            cfg0.policy.filter.merge(f);
+            st.class("carve_out_filter");
+        }
+        let mut w = if case.onchain { World::new_onchain(cfg0) } else { World::new(cfg0) };
         st.class(if case.onchain { "onchain-factory" } else { "simple-factory" });
         let secp = w.secp.clone();
         let net = Network::Testnet;
